@@ -738,7 +738,15 @@ pub fn prepare(crate_name: &str, specs: Vec<(&'static str, Spec)>) -> Prepared {
         .iter()
         .map(|(_, s)| pipe::macro_body(&s.print_macro("Lexer")))
         .collect();
-    let res = pipe::expand_all(&defs, Duration::from_secs(20), false, 12);
+    let mut res = pipe::expand_all(&defs, Duration::from_secs(20), false, 12);
+    // A timeout or a dead worker under load is re-tried alone with a tripled budget before the
+    // definition is given up (a time budget hit must not turn into a verdict by accident).
+    for i in 0..res.len() {
+        if matches!(res[i], Expand::Timeout(_) | Expand::Died) {
+            let mut w = pipe::Worker::new();
+            res[i] = w.expand(&defs[i], false, Duration::from_secs(60));
+        }
+    }
     let mut usable = vec![];
     let mut excluded = vec![];
     for (i, r) in res.iter().enumerate() {
